@@ -213,9 +213,13 @@ def r1234_writer(ctx, chk):
         chk.violation("C16.1", where, "the report has no line %r" % l, expected=l, found=sorted(seen), construct="save_results missing label %s" % l)
     # C16.3 keys
     read_keys = set()
+
+    def _guarded(cond, key_t):
+        # `if "key" in entry: ... entry["key"]`: a read that only happens when the key is there cannot fail
+        return any(c == ("cmp", "in", key_t, entry_t) for c in ([cond] + list(cond[1]) if cond[0] == "and" else [cond]))
     for cond, _, call in writes:
         for t in C02._sub(call):
-            if t[0] == "idx" and t[1] == entry_t and is_const(t[2]):
+            if t[0] == "idx" and t[1] == entry_t and is_const(t[2]) and not _guarded(cond, t[2]):
                 read_keys.add(t[2][1])
     for v in sx.loops[L.id].update.values():
         for t in C02._sub(v):
